@@ -12,13 +12,13 @@ pub fn property() -> Property {
     Property {
         id: "C02",
         level: "exploration",
-        rule: "(a) games of up to 300 plies played on ONE engine board with make() only, from seed FENs re-based to half-move clocks up to 10^9 (incl. >= 2^18) and full-move numbers up to 4*10^9; (b) every legal move of generated positions; (c) games of up to 200 plies on one board on which the legal moves are generated (make + unmake of every candidate) before every move, clocks <= 4095. Oracle: Fen::from(&board).fen after make equals the FEN of the reference successor, compared field by field. Non-trivial = distinct (4-field FEN, move) where the move is castle / e.p. / promotion / double push / king or rook move with a right set / capture on a corner with the opponent's right set / clock >= 100 before the move",
+        rule: "(a) games of up to 300 plies played on ONE engine board with make() only, from seed FENs re-based to half-move clocks up to 10^9 (incl. >= 2^18) and full-move numbers up to 4*10^9; (b) every legal move of generated positions, captures and promotions also with the move object the capture / promotion generator hands out; (c) games of up to 200 plies on one board on which the legal moves are generated (make + unmake of every candidate) before every move, clocks <= 4095. Oracle: Fen::from(&board).fen after make equals the FEN of the reference successor, compared field by field. Non-trivial = distinct (4-field FEN, move) where the move is castle / e.p. / promotion / double push / king or rook move with a right set / capture on a corner with the opponent's right set / clock >= 100 before the move",
         assumptions: &["reference successor function validated indirectly by published perft counts", "the move object is taken from the engine's own pseudo-legal list by UCI text (no unmake is executed on the board under test: unmake only restores clocks <= 4095, which is C03's stated domain)"],
         parts: vec![
             Part {
                 name: "games",
                 quick: 8_000,
-                thorough: 100_000,
+                thorough: 300_000,
                 single_shard: false, supplementary: false,
                 run: |cfg| run_part(cfg, gen::raw_playout(300), |r| gen::play(r, ClockDomain::Board).to_game(), check_game),
                 replay: |v| replay_case::<Game, _>(v, check_game),
@@ -26,7 +26,7 @@ pub fn property() -> Property {
             Part {
                 name: "games_with_lookahead",
                 quick: 4_000,
-                thorough: 60_000,
+                thorough: 180_000,
                 single_shard: false, supplementary: false,
                 run: |cfg| {
                     run_part(
@@ -46,7 +46,7 @@ pub fn property() -> Property {
             Part {
                 name: "all_moves",
                 quick: 60_000,
-                thorough: 1_000_000,
+                thorough: 3_000_000,
                 single_shard: false, supplementary: false,
                 run: |cfg| run_part(cfg, gen::raw_pos(60), |r| PosCase { fen: gen::position(r, ClockDomain::Board).fen() }, check_all_moves),
                 replay: |v| replay_case::<PosCase, _>(v, check_all_moves),
@@ -102,8 +102,22 @@ pub fn special(p: &Pos, m: Mv) -> Option<&'static str> {
 
 fn check_one(b: &mut inkayaku_board::Bitboard, p: &Pos, m: Mv, ctx: &mut Ctx) -> Result<(), String> {
     let mv = eng::find_pseudo(b, m).ok_or_else(|| format!("legal move {m} is not offered by the engine in {} (see C01)", p.fen()))?;
-    b.make(mv);
     let want = p.apply(m).fen();
+    // the same move as the capture / promotion generator hands it out (the quiescence search plays THOSE objects)
+    if p.is_capture(m) || m.promo.is_some() {
+        let u = m.uci();
+        if let Some(nq) = b.generate_pseudo_legal_non_quiescent_moves().into_iter().find(|x| x.to_uci_string() == u) {
+            // (on a board of its own: taking the move back on `b` is C03's business and only restores clocks <= 4095)
+            let mut c = eng::board_from_pos(p);
+            c.make(nq);
+            let got = eng::eng_fen(&c);
+            if got != want {
+                return Err(format!("after {m} in {} (move object taken from generate_pseudo_legal_non_quiescent_moves): {}", p.fen(), fields_diff(&got, &want)));
+            }
+            ctx.class("move_object_from_the_capture_generator");
+        }
+    }
+    b.make(mv);
     let got = eng::eng_fen(b);
     if got != want {
         return Err(format!("after {m} in {}: {}", p.fen(), fields_diff(&got, &want)));
